@@ -696,17 +696,19 @@ Section TagIdem.
     unfold any_tagged. induction l as [|x r IH]; intros k l' k' E H; [discriminate|].
     rewrite thread_top_cons in E. simpl in H.
     destruct x; inv_ok;
-      try match goal with X : thread _ _ g = Ok ?p |- _ => destruct p as [g1 kg] end;
-      match goal with X : thread_top _ _ r = Ok ?p |- _ => destruct p as [r1 k1] end; simpl fst; simpl in H.
+      try match goal with X : thread _ _ _ = Ok ?p |- _ => destruct p as [g1 kg] end;
+      match goal with X : thread_top _ _ r = Ok ?p |- _ => destruct p as [r1 k1] end; simpl fst.
     - simpl. eapply IH; eauto.
-    - simpl. apply orb_true_iff; apply orb_true_iff in H as [H|H]; [discriminate|right; eapply IH; eauto].
+    - match goal with X : T _ (NCompOf _) = Ok _ |- _ => simpl in X; discriminate end.
     - simpl. apply orb_true_iff; apply orb_true_iff in H as [H|H]; [left|right; eapply IH; eauto].
       eapply thread_keeps_tagged; eauto.
     - apply orb_true_iff in H as [H|H].
       + match goal with X : T _ _ = Ok ?y |- _ => pose proof (tag_keeps_tag _ _ _ X H) as Hy;
           apply tag_node_NType in X as (a' & ms & el & a'' & ms' & el' & ? & -> & S) end.
         simpl in *. rewrite Hy. reflexivity.
-      + simpl. apply orb_true_iff. right. eapply IH; eauto.
+      + match goal with X : T _ _ = Ok ?y |- _ =>
+          apply tag_node_NType in X as (a' & ms & el & a'' & ms' & el' & ? & -> & S) end.
+        simpl. apply orb_true_iff. right. eapply IH; eauto.
   Qed.
 
   Definition tag_idem_at (x : node) : Prop := forall k y, T k x = Ok y -> T None y = Ok y.
@@ -734,7 +736,7 @@ Section TagIdem.
     - simpl in E. inv_ok. reflexivity.
     - inversion H as [|? ? Hx Hr]; subst. rewrite thread_top_cons in E. simpl in Hx.
       destruct x; inv_ok;
-        try match goal with X : thread _ _ g = Ok ?p |- _ => destruct p as [g1 kg] end;
+        try match goal with X : thread _ _ _ = Ok ?p |- _ => destruct p as [g1 kg] end;
         match goal with X : thread_top _ _ r = Ok ?p |- _ => destruct p as [r1 k1]; pose proof (IH _ _ _ Hr X) as R end;
         simpl fst; rewrite thread_top_cons.
       + rewrite R. reflexivity.
@@ -773,7 +775,914 @@ Section TagIdem.
     rewrite Ems. simpl.
     match goal with X : optM _ el = Ok _ |- _ => rename X into Eel end.
     assert (Eel2 : optM (T None) x1 = Ok x1).
-    { eapply optM_idem; [|exact Eel]. destruct el; auto. }
+    { eapply optM_idem; [|exact Eel]. destruct el; [intros y; apply H0 | exact I]. }
     rewrite Eel2. reflexivity.
   Qed.
 End TagIdem.
+
+(** * DEFAULT clean-up *)
+Lemma set_default_set_default a d e : set_default (set_default a d) e = set_default a e.
+Proof. destruct a; reflexivity. Qed.
+Lemma a_default_set_default a d : a_default (set_default a d) = d.
+Proof. destruct a; reflexivity. Qed.
+Lemma head_set_default a d : head_of_attrs (set_default a d) = head_of_attrs a.
+Proof. destruct a; reflexivity. Qed.
+Lemma head_set_tag a t : head_of_attrs (set_tag a t) = head_of_attrs a.
+Proof. destruct a; reflexivity. Qed.
+Lemma set_default_same a : set_default a (a_default a) = a.
+Proof. destruct a; reflexivity. Qed.
+
+Lemma conv_bits_idem nb dv dv' : conv_bits nb dv = Ok dv' -> conv_bits nb dv' = Ok dv'.
+Proof.
+  destruct dv; simpl; intros H; inv_ok; try reflexivity.
+  - destruct (String.eqb (prefix2 s) "0x").
+    + destruct (hex_bits _); inv_ok. reflexivity.
+    + destruct (String.eqb s "0b"); inv_ok; [reflexivity|].
+      destruct (String.eqb (prefix2 s) "0b"); inv_ok.
+      destruct (bin_bits _); inv_ok. reflexivity.
+  - destruct nb; inv_ok. reflexivity.
+Qed.
+
+Lemma conv_octets_idem dv dv' : conv_octets dv = Ok dv' -> conv_octets dv' = Ok dv'.
+Proof.
+  destruct dv; simpl; intros H; inv_ok; try reflexivity.
+  destruct (String.eqb (prefix2 s) "0b") eqn:E1.
+  - destruct (bin_bits _); inv_ok. reflexivity.
+  - destruct (String.eqb (prefix2 s) "0x") eqn:E2.
+    + destruct (hex_bits _); inv_ok. reflexivity.
+    + inv_ok. simpl. rewrite E1, E2. reflexivity.
+Qed.
+
+Lemma conv_bool_idem dv : conv_bool (conv_bool dv) = conv_bool dv.
+Proof.
+  destruct dv; try reflexivity. simpl.
+  destruct (String.eqb s "TRUE") eqn:E1; [reflexivity|].
+  destruct (String.eqb s "FALSE") eqn:E2; [reflexivity|]. simpl. rewrite E1, E2. reflexivity.
+Qed.
+
+Section Def.
+  Variable fuel : nat.
+  Variable var : variant.
+  Variable sk : table (option head).
+  Variable mn : string.
+  Hypothesis Hvar : v_numeric_in_dict var = false.
+
+  Lemma conv_default_numeric n1 n2 a :
+    conv_default fuel var n1 sk mn a = conv_default fuel var n2 sk mn a.
+  Proof.
+    unfold conv_default. destruct (a_default a); [|reflexivity].
+    destruct (resolve_descr fuel sk mn (head_of_attrs a)) as [h|]; simpl; [|reflexivity].
+    rewrite Hvar, !andb_false_r. reflexivity.
+  Qed.
+
+  Lemma conv_default_pres numeric a a' :
+    conv_default fuel var numeric sk mn a = Ok a' -> clr_def a' = clr_def a.
+  Proof.
+    unfold conv_default, clr_def. destruct (a_default a); intros H; inv_ok; [|reflexivity].
+    repeat match type of H with
+           | (if ?c then _ else _) = _ => destruct c
+           | match ?c with _ => _ end = _ => destruct c
+           end; inv_ok; try reflexivity; apply set_default_set_default.
+  Qed.
+
+  Lemma conv_default_head numeric a a' :
+    conv_default fuel var numeric sk mn a = Ok a' -> head_of_attrs a' = head_of_attrs a.
+  Proof.
+    intros H. apply conv_default_pres in H. apply (f_equal head_of_attrs) in H.
+    unfold clr_def in H. rewrite !head_set_default in H. exact H.
+  Qed.
+
+  Lemma conv_default_idem numeric a a' :
+    conv_default fuel var numeric sk mn a = Ok a' -> conv_default fuel var numeric sk mn a' = Ok a'.
+  Proof.
+    intros H. pose proof (conv_default_head _ _ _ H) as Hh. revert H. unfold conv_default.
+    rewrite Hh.
+    destruct (a_default a) as [dv|] eqn:Da; intros H; [|inv_ok; rewrite Da; reflexivity].
+    inv_ok. rewrite Hvar, !andb_false_r in H.
+    assert (G : forall dv', a' = set_default a (Some dv') ->
+                            (let rt := fst (fst x) in
+                             if String.eqb rt "BIT STRING" then
+                               let* dv'' := conv_bits (snd x) dv' in Ok (set_default a' (Some dv''))
+                             else if String.eqb rt "OCTET STRING" then
+                               let* dv'' := conv_octets dv' in Ok (set_default a' (Some dv''))
+                             else if String.eqb rt "BOOLEAN" && v_bool_default var then
+                               Ok (set_default a' (Some (conv_bool dv')))
+                             else Ok a') = Ok a' ->
+            match a_default a' with
+            | Some dv0 =>
+              let* h := Ok x in
+              let rt := fst (fst h) in
+              if String.eqb rt "BIT STRING" then
+                let* dv'' := conv_bits (snd h) dv0 in Ok (set_default a' (Some dv''))
+              else if String.eqb rt "OCTET STRING" then
+                let* dv'' := conv_octets dv0 in Ok (set_default a' (Some dv''))
+              else if String.eqb rt "BOOLEAN" && v_bool_default var then
+                Ok (set_default a' (Some (conv_bool dv0)))
+              else if String.eqb rt "ENUMERATED" && numeric && v_numeric_in_dict var then
+                match snd (fst h) with
+                | Some vals => Ok (set_default a' (Some (conv_enum vals dv0)))
+                | None => Err EKey
+                end
+              else Ok a'
+            | None => Ok a'
+            end = Ok a').
+    { intros dv' -> G. rewrite a_default_set_default. simpl. simpl in G.
+      rewrite Hvar, !andb_false_r. exact G. }
+    rewrite E.
+    destruct (String.eqb (fst (fst x)) "BIT STRING") eqn:C1.
+    { inv_ok. apply (G x0 eq_refl). simpl. rewrite C1, (conv_bits_idem _ _ _ E0). simpl.
+      rewrite set_default_set_default. reflexivity. }
+    destruct (String.eqb (fst (fst x)) "OCTET STRING") eqn:C2.
+    { inv_ok. apply (G x0 eq_refl). simpl. rewrite C1, C2, (conv_octets_idem _ _ E0). simpl.
+      rewrite set_default_set_default. reflexivity. }
+    destruct (String.eqb (fst (fst x)) "BOOLEAN" && v_bool_default var) eqn:C3.
+    { inv_ok. apply (G (conv_bool dv) eq_refl). simpl. rewrite C1, C2, C3.
+      rewrite conv_bool_idem, set_default_set_default. reflexivity. }
+    inv_ok. apply (G dv).
+    - rewrite <- Da. symmetry. apply set_default_same.
+    - simpl. rewrite C1, C2, C3. reflexivity.
+  Qed.
+
+  Notation D numeric := (def_node fuel var numeric sk mn).
+
+  Lemma def_node_NType numeric cv x y :
+    D numeric cv x = Ok y ->
+    exists a ms el a' ms' el', x = NType a ms el /\ y = NType a' ms' el' /\
+                               (if cv then conv_default fuel var numeric sk mn a else Ok a) = Ok a'.
+  Proof.
+    destruct x; simpl; intros H; try discriminate. inv_ok.
+    do 6 eexists. split; [reflexivity|]. split; [reflexivity|]. exact E.
+  Qed.
+
+  Lemma is_seq_or_set_head a a' : head_of_attrs a' = head_of_attrs a -> is_seq_or_set a' = is_seq_or_set a.
+  Proof.
+    unfold is_seq_or_set, head_of_attrs. intros H. injection H as H1 H2 H3. rewrite H1. reflexivity.
+  Qed.
+
+  Lemma on_member_idem numeric cm cg x y :
+    memP (fun n => forall cv y, D numeric cv n = Ok y -> D numeric cv y = Ok y) x ->
+    on_member (D numeric) cm cg x = Ok y -> on_member (D numeric) cm cg y = Ok y.
+  Proof.
+    destruct x; cbn [on_member memP]; intros H E.
+    - inv_ok. reflexivity.
+    - simpl in E. discriminate.
+    - inv_ok. simpl. erewrite mapM_idem; [reflexivity| |exact E0].
+      eapply Forall_impl; [|exact H]. intros z Hz w. apply Hz.
+    - pose proof (H _ _ E) as Hy.
+      apply def_node_NType in E as (a0 & ms & el & a' & ms' & el' & ? & -> & ?). exact Hy.
+  Qed.
+
+  Lemma def_idem numeric n : forall cv y, D numeric cv n = Ok y -> D numeric cv y = Ok y.
+  Proof.
+    induction n using node_ind2; intros cv y E; simpl in E; try discriminate.
+    inv_ok. simpl.
+    assert (Ea : (if cv then conv_default fuel var numeric sk mn x else Ok x) = Ok x).
+    { destruct cv; [|reflexivity]. eapply conv_default_idem; eauto. }
+    assert (Hh : is_seq_or_set x = is_seq_or_set a).
+    { apply is_seq_or_set_head. destruct cv; inv_ok; [|reflexivity]. eapply conv_default_head; eauto. }
+    rewrite Ea, Hh. simpl.
+    assert (Ems :
+      match x0 with
+      | Some l => let* l' := mapM (on_member (D numeric) (is_seq_or_set a)
+                                             (is_seq_or_set a && v_group_defaults var)) l in Ok (Some l')
+      | None => if is_seq_or_set a then Err EKey else Ok None
+      end = Ok x0).
+    { destruct ms as [l|]; inv_ok.
+      - erewrite mapM_idem; [reflexivity| |eassumption].
+        eapply Forall_impl; [|exact H]. intros z Hz w. apply on_member_idem. exact Hz.
+      - destruct (is_seq_or_set a); inv_ok. reflexivity. }
+    rewrite Ems. simpl.
+    match goal with X : optM _ el = Ok _ |- _ => rename X into Eel end.
+    erewrite optM_idem; [reflexivity| |exact Eel]. destruct el; [intros z; apply H0 | exact I].
+  Qed.
+
+  Lemma on_member_pres numeric cm cg x y :
+    memP (fun n => forall cv y, D numeric cv n = Ok y -> map_attrs clr_def y = map_attrs clr_def n) x ->
+    on_member (D numeric) cm cg x = Ok y -> map_attrs clr_def y = map_attrs clr_def x.
+  Proof.
+    destruct x; cbn [on_member memP]; intros H E.
+    - inv_ok. reflexivity.
+    - simpl in E. discriminate.
+    - inv_ok. simpl. f_equal. eapply mapM_pres; [|exact E0].
+      eapply Forall_impl; [|exact H]. intros z Hz w. apply Hz.
+    - eapply H; eauto.
+  Qed.
+
+  Lemma def_pres numeric n : forall cv y,
+    D numeric cv n = Ok y -> map_attrs clr_def y = map_attrs clr_def n.
+  Proof.
+    induction n using node_ind2; intros cv y E; simpl in E; try discriminate.
+    inv_ok. simpl. f_equal.
+    - destruct cv; inv_ok; [|reflexivity]. eapply conv_default_pres; eauto.
+    - destruct ms as [l|]; inv_ok.
+      + simpl. f_equal. eapply mapM_pres; [|eassumption].
+        eapply Forall_impl; [|exact H]. intros z Hz w. apply on_member_pres. exact Hz.
+      + destruct (is_seq_or_set a); inv_ok. reflexivity.
+    - match goal with X : optM _ el = Ok _ |- _ => rename X into Eel end.
+      destruct el; simpl in Eel; inv_ok; [|reflexivity]. simpl. f_equal. eapply H0; eauto.
+  Qed.
+
+  Lemma def_numeric n1 n2 n : forall cv, D n1 cv n = D n2 cv n.
+  Proof.
+    induction n using node_ind2; intros cv; try reflexivity.
+    simpl. rewrite (conv_default_numeric n1 n2).
+    destruct (if cv then conv_default fuel var n2 sk mn a else Ok a); simpl; [|reflexivity].
+    assert (Ems :
+      match ms with
+      | Some l => let* l' := mapM (on_member (D n1) (is_seq_or_set a)
+                                             (is_seq_or_set a && v_group_defaults var)) l in Ok (Some l')
+      | None => if is_seq_or_set a then Err EKey else Ok None
+      end =
+      match ms with
+      | Some l => let* l' := mapM (on_member (D n2) (is_seq_or_set a)
+                                             (is_seq_or_set a && v_group_defaults var)) l in Ok (Some l')
+      | None => if is_seq_or_set a then Err EKey else Ok None
+      end).
+    { destruct ms as [l|]; [|reflexivity].
+      rewrite (mapM_ext (on_member (D n1) (is_seq_or_set a) (is_seq_or_set a && v_group_defaults var))
+                        (on_member (D n2) (is_seq_or_set a) (is_seq_or_set a && v_group_defaults var)) l);
+        [reflexivity|].
+      eapply Forall_impl; [|exact H]. intros z Hz. destruct z; simpl in *; auto.
+      rewrite (mapM_ext (D n1 (is_seq_or_set a && v_group_defaults var))
+                        (D n2 (is_seq_or_set a && v_group_defaults var)) g); [reflexivity|].
+      eapply Forall_impl; [|exact Hz]. intros w Hw. apply Hw. }
+    rewrite Ems.
+    assert (Eel : optM (D n1 false) el = optM (D n2 false) el).
+    { destruct el as [e|]; simpl; [|reflexivity]. rewrite H0. reflexivity. }
+    rewrite Eel. reflexivity.
+  Qed.
+End Def.
+
+(** * A descriptor is determined by its tag-erased and DEFAULT-erased copies *)
+Lemma recon_attrs a b : clr_tag a = clr_tag b -> clr_def a = clr_def b -> a = b.
+Proof.
+  destruct a, b; unfold clr_tag, clr_def; simpl; intros H1 H2.
+  injection H1 as -> -> -> -> -> -> ->. injection H2 as ->. reflexivity.
+Qed.
+
+Lemma map_recon {A B C} (f : A -> B) (g : A -> C) l : forall l',
+  Forall (fun x => forall y, f x = f y -> g x = g y -> x = y) l ->
+  map f l = map f l' -> map g l = map g l' -> l = l'.
+Proof.
+  induction l as [|x r IH]; intros [|y r'] H M1 M2; try discriminate; [reflexivity|].
+  inversion H; subst. simpl in *. injection M1 as M1 M1'. injection M2 as M2 M2'.
+  f_equal; auto.
+Qed.
+
+Lemma recon a : forall b,
+  map_attrs clr_tag a = map_attrs clr_tag b -> map_attrs clr_def a = map_attrs clr_def b -> a = b.
+Proof.
+  induction a using node_ind'; intros b H1 H2; destruct b; simpl in *; try discriminate; try congruence.
+  - injection H1 as H1. injection H2 as H2. f_equal. eapply map_recon; eauto.
+  - injection H1 as A1 M1 E1. injection H2 as A2 M2 E2. f_equal.
+    + apply recon_attrs; assumption.
+    + destruct ms as [l|], members as [l'|]; simpl in *; try discriminate; [|reflexivity].
+      injection M1 as M1. injection M2 as M2. f_equal. eapply map_recon; eauto.
+    + destruct el as [e|], element as [e'|]; simpl in *; try discriminate; [|reflexivity].
+      injection E1 as E1. injection E2 as E2. f_equal. apply H0; assumption.
+Qed.
+
+(** T-fixedness is transported along the DEFAULT pass. *)
+Lemma tag_fixed_transfer fuel sk mn mtags z w :
+  map_attrs clr_def w = map_attrs clr_def z ->
+  tag_node fuel sk mn mtags None z = Ok z -> tag_node fuel sk mn mtags None w = Ok w.
+Proof.
+  intros M Hz.
+  pose proof (tag_map fuel sk mn mtags None w) as Hw. rewrite M, tag_map, Hz in Hw. simpl in Hw.
+  destruct (tag_node fuel sk mn mtags None w) as [w'|] eqn:E; simpl in Hw; [|discriminate].
+  injection Hw as Hw. f_equal. apply recon.
+  - eapply tag_pres; eauto.
+  - rewrite <- Hw. symmetry. exact M.
+Qed.
+
+(** * COMPONENTS OF *)
+Definition is_compof (x : node) : bool := match x with NCompOf _ => true | _ => false end.
+Definition no_compof (l : list node) : bool := forallb (fun x => negb (is_compof x)) l.
+Definition top_nocompof (n : node) : bool :=
+  match n with NType _ (Some l) _ => no_compof l | _ => true end.
+
+Lemma expand_cons fuel tbl mn x r :
+  expand_members fuel tbl mn (x :: r) =
+  match x with
+  | NCompOf n =>
+    match fuel with
+    | O => Err EFuel
+    | S f =>
+      let* tm := lookup (S f) tbl mn n in
+      match fst tm with
+      | NType _ (Some ims) _ =>
+        let* inner := expand_members f tbl (snd tm) ims in
+        let* r' := expand_members fuel tbl mn r in
+        Ok (until_marker inner ++ r')
+      | NType _ None _ | NCompOf _ => Err EKey
+      | NMarker | NGroup _ => Err EType
+      end
+    end
+  | _ => let* r' := expand_members fuel tbl mn r in Ok (x :: r')
+  end.
+Proof. destruct fuel; destruct x; reflexivity. Qed.
+
+Lemma expand_nil fuel tbl mn : expand_members fuel tbl mn [] = Ok [].
+Proof. destruct fuel; reflexivity. Qed.
+
+Lemma no_compof_until_marker l : no_compof l = true -> no_compof (until_marker l) = true.
+Proof.
+  unfold no_compof. induction l as [|x r IH]; [reflexivity|]. simpl. intros H.
+  apply andb_prop in H as [Hx Hr]. destruct (is_marker x); [reflexivity|]. simpl. rewrite Hx, (IH Hr). reflexivity.
+Qed.
+
+Lemma no_compof_app l1 l2 : no_compof l1 = true -> no_compof l2 = true -> no_compof (l1 ++ l2) = true.
+Proof. unfold no_compof. intros. rewrite forallb_app. apply andb_true_intro; split; assumption. Qed.
+
+Lemma expand_no_compof fuel : forall tbl mn l l',
+  expand_members fuel tbl mn l = Ok l' -> no_compof l' = true.
+Proof.
+  induction fuel as [|f IHf]; intros tbl mn l; induction l as [|x r IH]; intros l' E.
+  - rewrite expand_nil in E. inv_ok. reflexivity.
+  - rewrite expand_cons in E. destruct x; inv_ok; unfold no_compof; simpl; apply IH; assumption.
+  - rewrite expand_nil in E. inv_ok. reflexivity.
+  - rewrite expand_cons in E. destruct x; inv_ok; try (unfold no_compof; simpl; apply IH; assumption).
+    destruct (fst x) as [| |?|? [ims|] ?]; inv_ok.
+    apply no_compof_app; [apply no_compof_until_marker; eapply IHf; eauto | apply IH; assumption].
+Qed.
+
+Lemma no_compof_expand fuel tbl mn l : no_compof l = true -> expand_members fuel tbl mn l = Ok l.
+Proof.
+  unfold no_compof. induction l as [|x r IH]; intros H; [apply expand_nil|].
+  simpl in H. apply andb_prop in H as [Hx Hr]. rewrite expand_cons, (IH Hr).
+  destruct x; try reflexivity. discriminate.
+Qed.
+
+Lemma top_nocompof_map f n : top_nocompof (map_attrs f n) = top_nocompof n.
+Proof.
+  destruct n as [| | |a [l|] el]; try reflexivity. simpl. unfold no_compof.
+  induction l as [|x r IH]; [reflexivity|]. simpl. rewrite IH. destruct x; reflexivity.
+Qed.
+
+Lemma expand_top_nocompof fuel tbl mn n n' :
+  expand_top fuel tbl mn n = Ok n' -> top_nocompof n' = true /\ head_of n' = head_of n.
+Proof.
+  destruct n as [| | |a [l|] el]; simpl; intros H; inv_ok; try (split; reflexivity).
+  split; [|reflexivity]. simpl. eapply expand_no_compof; eauto.
+Qed.
+
+Lemma nocompof_expand_top fuel tbl mn n :
+  top_nocompof n = true -> head_of n <> None -> expand_top fuel tbl mn n = Ok n.
+Proof.
+  destruct n as [| | |a [l|] el]; simpl; intros H Hh; try reflexivity; [congruence|].
+  rewrite (no_compof_expand _ _ _ _ H). reflexivity.
+Qed.
+
+Lemma mapM_forallb {A} (f : A -> result A) (p : A -> bool) l l' :
+  (forall x y, f x = Ok y -> p x = true -> p y = true) ->
+  mapM f l = Ok l' -> forallb p l = true -> forallb p l' = true.
+Proof.
+  intros Hf. revert l'. induction l as [|x r IH]; intros l' E H; simpl in E; inv_ok; [reflexivity|].
+  simpl in *. apply andb_prop in H as [Hx Hr]. rewrite (Hf _ _ E0 Hx), (IH _ E1 Hr). reflexivity.
+Qed.
+
+Lemma ext_top_nocompof var n n' :
+  ext_node var n = Ok n' -> top_nocompof n = true -> top_nocompof n' = true.
+Proof.
+  destruct n as [| | |a [l|] el]; simpl; intros H Hn; inv_ok; try reflexivity.
+  simpl. unfold add_marker, no_compof in *.
+  assert (F : forallb (fun x => negb (is_compof x)) x0 = true).
+  { eapply mapM_forallb; [|eassumption|exact Hn].
+    intros y z Ey Hy. destruct y; cbn [ext_member] in Ey.
+    - inv_ok. reflexivity.
+    - simpl in Hy. discriminate.
+    - inv_ok. reflexivity.
+    - apply ext_node_NType in Ey as (? & ? & ->). reflexivity. }
+  destruct (existsb is_marker x0); [exact F|]. rewrite forallb_app, F. reflexivity.
+Qed.
+
+Lemma tag_top_nocompof fuel sk mn mtags k n n' :
+  tag_node fuel sk mn mtags k n = Ok n' -> top_nocompof n' = top_nocompof n.
+Proof.
+  intros H. apply tag_pres in H. rewrite <- (top_nocompof_map clr_tag n'), H. apply top_nocompof_map.
+Qed.
+
+(** head (what look-ups read of a top-level type) is preserved by every pass *)
+Lemma head_of_map_clr_tag n : head_of (map_attrs clr_tag n) = head_of n.
+Proof. destruct n; try reflexivity. simpl. unfold clr_tag. rewrite head_set_tag. reflexivity. Qed.
+Lemma head_of_map_clr_def n : head_of (map_attrs clr_def n) = head_of n.
+Proof. destruct n; try reflexivity. simpl. unfold clr_def. rewrite head_set_default. reflexivity. Qed.
+
+Lemma ext_head var n n' : ext_node var n = Ok n' -> head_of n' = head_of n.
+Proof.
+  destruct n as [| | |a ms el]; simpl; intros H; inv_ok; try reflexivity.
+  destruct ms; inv_ok; reflexivity.
+Qed.
+Lemma tag_head fuel sk mn mtags k n n' :
+  tag_node fuel sk mn mtags k n = Ok n' -> head_of n' = head_of n.
+Proof.
+  intros H. apply tag_pres in H. rewrite <- (head_of_map_clr_tag n'), H. apply head_of_map_clr_tag.
+Qed.
+
+(** * One top-level type through the passes of one module step *)
+Section Pipeline.
+  Variable fuel : nat.
+  Variable var : variant.
+  Hypothesis Hvar : v_numeric_in_dict var = false.
+  Variable sk : table (option head).
+  Variable mn mtags : string.
+  Variable ext : bool.
+
+  Definition ext_if (n : node) : result node := if ext then ext_node var n else Ok n.
+
+  Definition node_fixed (n : node) : Prop :=
+    top_nocompof n = true /\ head_of n <> None /\
+    ext_if n = Ok n /\
+    tag_node fuel sk mn mtags None n = Ok n /\
+    forall numeric, def_node fuel var numeric sk mn false n = Ok n.
+
+  Lemma pipeline_fixed numeric x y z w :
+    top_nocompof x = true ->
+    ext_if x = Ok y ->
+    tag_node fuel sk mn mtags None y = Ok z ->
+    def_node fuel var numeric sk mn false z = Ok w ->
+    node_fixed w /\ head_of w = head_of x.
+  Proof.
+    intros Nx Ey Tz Dw.
+    pose proof (tag_pres _ _ _ _ _ _ _ Tz) as Pz.
+    pose proof (def_pres fuel var sk mn numeric _ _ _ Dw) as Pw.
+    assert (Hy : head_of y = head_of x /\ top_nocompof y = true /\ ext_if y = Ok y).
+    { unfold ext_if in *. destruct ext; inv_ok.
+      - split; [eapply ext_head; eauto|]. split; [eapply ext_top_nocompof; eauto|]. eapply ext_idem; eauto.
+      - auto. }
+    destruct Hy as (Hy1 & Hy2 & Hy3).
+    assert (Hw : head_of w = head_of x).
+    { rewrite <- (head_of_map_clr_def w), Pw, head_of_map_clr_def.
+      rewrite (tag_head _ _ _ _ _ _ _ Tz). exact Hy1. }
+    split; [|exact Hw]. repeat split.
+    - rewrite <- (top_nocompof_map clr_def w), Pw, top_nocompof_map.
+      rewrite (tag_top_nocompof _ _ _ _ _ _ _ Tz). exact Hy2.
+    - apply def_node_NType in Dw as (? & ? & ? & ? & ? & ? & _ & -> & _). discriminate.
+    - unfold ext_if in *. destruct ext; [|reflexivity].
+      apply (ext_fixed_transfer var clr_def z w Pw).
+      apply (ext_fixed_transfer var clr_tag y z Pz). exact Hy3.
+    - apply (tag_fixed_transfer _ _ _ _ z w Pw). eapply tag_idem; eauto.
+    - intros numeric'. rewrite (def_numeric fuel var sk mn Hvar numeric' numeric).
+      eapply def_idem; eauto.
+  Qed.
+
+  Lemma step_types_nil f : step_types f [] = Ok [].
+  Proof. reflexivity. Qed.
+  Lemma step_types_cons f nt r :
+    step_types f (nt :: r) =
+    (let* t := f (snd nt) in let* r' := step_types f r in Ok ((fst nt, t) :: r')).
+  Proof.
+    unfold step_types. rewrite mapM_cons. destruct (f (snd nt)); reflexivity.
+  Qed.
+
+  Lemma step_types_id f ts :
+    Forall (fun nt => f (snd nt) = Ok (snd nt)) ts -> step_types f ts = Ok ts.
+  Proof.
+    induction 1 as [|[n t] r Hx Hr IH]; [reflexivity|].
+    rewrite step_types_cons. simpl in *. rewrite Hx. simpl. rewrite IH. reflexivity.
+  Qed.
+
+  Lemma ext_if_types ts :
+    (if ext then step_types (ext_node var) ts else Ok ts) = step_types ext_if ts.
+  Proof.
+    unfold ext_if. destruct ext; [reflexivity|]. symmetry. apply step_types_id.
+    apply Forall_forall. reflexivity.
+  Qed.
+
+  Definition types_fixed (ts : list (string * node)) : Prop :=
+    Forall (fun nt => node_fixed (snd nt)) ts.
+
+  Lemma types_pipeline numeric ts : forall ts1 ts2 ts3,
+    Forall (fun nt => top_nocompof (snd nt) = true) ts ->
+    step_types ext_if ts = Ok ts1 ->
+    step_types (tag_node fuel sk mn mtags None) ts1 = Ok ts2 ->
+    step_types (def_node fuel var numeric sk mn false) ts2 = Ok ts3 ->
+    types_fixed ts3 /\ skel_types ts3 = skel_types ts.
+  Proof.
+    induction ts as [|[n t] r IH]; intros ts1 ts2 ts3 N E1 E2 E3.
+    - rewrite step_types_nil in E1. inv_ok. rewrite step_types_nil in E2. inv_ok.
+      rewrite step_types_nil in E3. inv_ok. split; [constructor|reflexivity].
+    - inversion N as [|? ? Nx Nr]; subst. simpl in Nx.
+      rewrite step_types_cons in E1. inv_ok. rewrite step_types_cons in E2. inv_ok.
+      rewrite step_types_cons in E3. inv_ok. simpl in *.
+      match goal with
+      | A : ext_if t = Ok ?y, B : tag_node _ _ _ _ None ?y = Ok ?z, C : def_node _ _ _ _ _ false ?z = Ok ?w |- _ =>
+        destruct (pipeline_fixed _ _ _ _ _ Nx A B C) as [F Hh]
+      end.
+      match goal with
+      | A : step_types ext_if r = Ok _, B : step_types (tag_node _ _ _ _ None) _ = Ok _,
+        C : step_types (def_node _ _ _ _ _ false) _ = Ok _ |- _ =>
+        destruct (IH _ _ _ Nr A B C) as [Fr Hr]
+      end.
+      split; [constructor; [exact F|exact Fr]|]. simpl. rewrite Hh, Hr. reflexivity.
+  Qed.
+
+  Lemma types_fixed_steps numeric ts :
+    types_fixed ts ->
+    step_types ext_if ts = Ok ts /\
+    step_types (tag_node fuel sk mn mtags None) ts = Ok ts /\
+    step_types (def_node fuel var numeric sk mn false) ts = Ok ts.
+  Proof.
+    intros F. repeat split; apply step_types_id; eapply Forall_impl; try exact F;
+      intros nt (A & B & C & D & E); auto.
+  Qed.
+End Pipeline.
+
+(** * Modules and the dictionary *)
+Definition same_frame (m m' : module) : Prop :=
+  m_name m' = m_name m /\ m_tags m' = m_tags m /\ m_ext m' = m_ext m /\
+  m_imports m' = m_imports m /\ skel_types (m_types m') = skel_types (m_types m).
+
+Lemma same_frame_refl m : same_frame m m.
+Proof. repeat split. Qed.
+
+Lemma same_frame_set_types m ts :
+  skel_types ts = skel_types (m_types m) -> same_frame m (set_types m ts).
+Proof. destruct m; simpl. intros H. repeat split. exact H. Qed.
+
+Lemma set_types_same m : set_types m (m_types m) = m.
+Proof. destruct m; reflexivity. Qed.
+
+Lemma m_types_set_types m ts : m_types (set_types m ts) = ts.
+Proof. destruct m; reflexivity. Qed.
+
+Lemma find_replace_same d mn m m' :
+  find_module d mn = Some m -> m_name m' = m_name m ->
+  find_module (replace_module d mn m') mn = Some m'.
+Proof.
+  induction d as [|x r IH]; simpl; intros F N; [discriminate|].
+  destruct (String.eqb mn (m_name x)) eqn:E.
+  - injection F as ->. simpl. rewrite N, E. reflexivity.
+  - simpl. rewrite E. apply IH; assumption.
+Qed.
+
+Lemma find_replace_other d mn mn' m m' :
+  find_module d mn = Some m -> m_name m' = m_name m -> mn' <> mn ->
+  find_module (replace_module d mn m') mn' = find_module d mn'.
+Proof.
+  induction d as [|x r IH]; simpl; intros F N D; [discriminate|].
+  destruct (String.eqb mn (m_name x)) eqn:E.
+  - injection F as ->. simpl. rewrite N. apply String.eqb_eq in E. subst mn.
+    destruct (String.eqb mn' (m_name m)) eqn:E2; [|reflexivity].
+    apply String.eqb_eq in E2. congruence.
+  - simpl. destruct (String.eqb mn' (m_name x)); [reflexivity|]. apply IH; assumption.
+Qed.
+
+Lemma replace_self d mn m : find_module d mn = Some m -> replace_module d mn m = d.
+Proof.
+  induction d as [|x r IH]; simpl; intros F; [reflexivity|].
+  destruct (String.eqb mn (m_name x)); [injection F as ->; reflexivity|]. f_equal. auto.
+Qed.
+
+Lemma skel_replace d mn m m' :
+  find_module d mn = Some m -> same_frame m m' -> skel (replace_module d mn m') = skel d.
+Proof.
+  intros F (N & _ & _ & I & S). revert F. induction d as [|x r IH]; simpl; intros F; [reflexivity|].
+  destruct (String.eqb mn (m_name x)).
+  - injection F as ->. simpl. rewrite N, I, S. reflexivity.
+  - simpl. f_equal. auto.
+Qed.
+
+Lemma names_of_skel d : map m_name d = map fst (skel d).
+Proof. unfold skel. rewrite map_map. reflexivity. Qed.
+
+Lemma find_module_In d mn m : find_module d mn = Some m -> In mn (map m_name d).
+Proof.
+  induction d as [|x r IH]; simpl; intros F; [discriminate|].
+  destruct (String.eqb mn (m_name x)) eqn:E; [left; apply String.eqb_eq in E; auto | right; auto].
+Qed.
+
+Lemma step_types_spec f (Q : node -> node -> Prop) ts : forall ts',
+  (forall t t', f t = Ok t' -> Q t t') -> step_types f ts = Ok ts' ->
+  Forall2 (fun nt nt' => fst nt' = fst nt /\ Q (snd nt) (snd nt')) ts ts'.
+Proof.
+  induction ts as [|nt r IH]; intros ts' HQ E.
+  - rewrite step_types_nil in E. inv_ok. constructor.
+  - rewrite step_types_cons in E. inv_ok. constructor; [split; [reflexivity|]; simpl; auto|auto].
+Qed.
+
+Section Dict.
+  Variable fuel : nat.
+  Variable var : variant.
+  Hypothesis Hvar : v_numeric_in_dict var = false.
+
+  Definition module_nocompof (m : module) : Prop :=
+    Forall (fun nt => top_nocompof (snd nt) = true) (m_types m).
+  Definition module_fixed (sk : table (option head)) (m : module) : Prop :=
+    types_fixed fuel var sk (m_name m) (module_tags m) (m_ext m) (m_types m).
+
+  Lemma module_fixed_nocompof sk m : module_fixed sk m -> module_nocompof m.
+  Proof.
+    unfold module_fixed, module_nocompof, types_fixed. intros F.
+    eapply Forall_impl; [|exact F]. intros nt (A & _). exact A.
+  Qed.
+
+  Lemma module_tags_frame m m' : same_frame m m' -> module_tags m' = module_tags m.
+  Proof. intros (_ & T & _). unfold module_tags. rewrite T. reflexivity. Qed.
+
+  Lemma expand_module_spec d m m' :
+    expand_module fuel d m = Ok m' -> module_nocompof m' /\ same_frame m m'.
+  Proof.
+    unfold expand_module. intros H. inv_ok.
+    pose proof (step_types_spec _ (fun t t' => top_nocompof t' = true /\ head_of t' = head_of t) _ _
+                                (expand_top_nocompof fuel (dict_table d) (m_name m)) E) as F2.
+    assert (G : Forall (fun nt => top_nocompof (snd nt) = true) x /\ skel_types x = skel_types (m_types m)).
+    { clear E. induction F2 as [|nt nt' r r' (A & B & C) F2 IH]; [split; [constructor|reflexivity]|].
+      destruct IH as [I1 I2]. split; [constructor; assumption|]. simpl. rewrite A, C, I2. reflexivity. }
+    destruct G as [G1 G2]. split.
+    - unfold module_nocompof. rewrite m_types_set_types. exact G1.
+    - apply same_frame_set_types. exact G2.
+  Qed.
+
+  Lemma fixed_expand_module sk d m : module_fixed sk m -> expand_module fuel d m = Ok m.
+  Proof.
+    intros F. unfold expand_module. rewrite step_types_id; [simpl; rewrite set_types_same; reflexivity|].
+    eapply Forall_impl; [|exact F]. intros nt (A & B & _). apply nocompof_expand_top; assumption.
+  Qed.
+
+  Lemma process_module_spec numeric d m m' :
+    process_module fuel var numeric d m = Ok m' ->
+    (v_compof_first var = true -> module_nocompof m) ->
+    module_fixed (skel d) m' /\ same_frame m m'.
+  Proof.
+    unfold process_module. intros H Pre. inv_ok.
+    assert (M1 : module_nocompof x /\ same_frame m x).
+    { destruct (v_compof_first var); inv_ok; [split; [auto|apply same_frame_refl]|].
+      eapply expand_module_spec; eauto. }
+    destruct M1 as [N1 F1]. rewrite ext_if_types in E0.
+    destruct (types_pipeline fuel var Hvar (skel d) (m_name m) (module_tags m) (m_ext x) numeric
+                             _ _ _ _ N1 E0 E1 E2) as [TF SK].
+    split.
+    - unfold module_fixed. destruct F1 as (_ & _ & Fe & _).
+      destruct m; simpl in *. rewrite <- Fe. exact TF.
+    - apply same_frame_set_types. rewrite SK. destruct F1 as (_ & _ & _ & _ & S). exact S.
+  Qed.
+
+  Lemma module_fixed_process numeric d m :
+    module_fixed (skel d) m -> process_module fuel var numeric d m = Ok m.
+  Proof.
+    intros F. unfold process_module.
+    assert (X : (if v_compof_first var then Ok m else expand_module fuel d m) = Ok m).
+    { destruct (v_compof_first var); [reflexivity|]. eapply fixed_expand_module; eauto. }
+    rewrite X. simpl. rewrite ext_if_types.
+    destruct (types_fixed_steps fuel var (skel d) (m_name m) (module_tags m) (m_ext m) numeric _ F)
+      as (A & B & C).
+    rewrite A. simpl. rewrite B. simpl. rewrite C. simpl. rewrite set_types_same. reflexivity.
+  Qed.
+
+  Definition fixed_at (d : dict) (mn : string) : Prop :=
+    exists m, find_module d mn = Some m /\ module_fixed (skel d) m.
+  Definition all_nocompof (d : dict) : Prop :=
+    forall mn m, find_module d mn = Some m -> module_nocompof m.
+
+  Lemma run_process_spec numeric names : forall d d1,
+    run_modules (process_module fuel var numeric) names d = Ok d1 ->
+    (v_compof_first var = true -> all_nocompof d) ->
+    skel d1 = skel d /\
+    (forall mn, In mn names -> fixed_at d1 mn) /\
+    (forall mn, fixed_at d mn -> fixed_at d1 mn).
+  Proof.
+    induction names as [|mn r IH]; intros d d1 E Pre.
+    - simpl in E. inv_ok. repeat split; [intros ? []|auto].
+    - simpl in E. destruct (find_module d mn) as [m|] eqn:F; [|discriminate]. inv_ok.
+      destruct (process_module_spec _ _ _ _ E0 (fun c => Pre c _ _ F)) as [MF SF].
+      pose proof (skel_replace _ _ _ _ F SF) as SK.
+      set (d' := replace_module d mn x) in *.
+      assert (Keep : forall mn', fixed_at d mn' -> fixed_at d' mn').
+      { intros mn' (m0 & F0 & MF0). destruct (String.eqb mn' mn) eqn:Q.
+        - apply String.eqb_eq in Q. subst mn'. exists x. split.
+          + apply (find_replace_same _ _ _ _ F). apply SF.
+          + rewrite SK. exact MF.
+        - apply String.eqb_neq in Q. exists m0. split.
+          + unfold d'. rewrite (find_replace_other _ _ _ _ _ F); [exact F0|apply SF|exact Q].
+          + rewrite SK. exact MF0. }
+      assert (Here : fixed_at d' mn).
+      { exists x. split; [apply (find_replace_same _ _ _ _ F); apply SF | rewrite SK; exact MF]. }
+      assert (Pre' : v_compof_first var = true -> all_nocompof d').
+      { intros c mn' m0 F0. destruct (String.eqb mn' mn) eqn:Q.
+        - apply String.eqb_eq in Q. subst mn'. unfold d' in F0.
+          rewrite (find_replace_same _ _ _ _ F) in F0 by apply SF. injection F0 as <-.
+          eapply module_fixed_nocompof; eauto.
+        - apply String.eqb_neq in Q. unfold d' in F0.
+          rewrite (find_replace_other _ _ _ _ _ F) in F0; [eapply Pre; eauto|apply SF|exact Q]. }
+      destruct (IH _ _ E Pre') as (S1 & In1 & Keep1).
+      split; [rewrite S1; exact SK|]. split.
+      + intros mn' [<-|I]; [apply Keep1; exact Here | apply In1; exact I].
+      + intros mn' Fx. apply Keep1. apply Keep. exact Fx.
+  Qed.
+
+  Lemma run_process_fixed numeric names d :
+    (forall mn, In mn names -> fixed_at d mn) ->
+    run_modules (process_module fuel var numeric) names d = Ok d.
+  Proof.
+    induction names as [|mn r IH]; intros H; [reflexivity|]. simpl.
+    destruct (H mn (or_introl eq_refl)) as (m & F & MF). rewrite F.
+    rewrite (module_fixed_process _ _ _ MF). simpl. rewrite (replace_self _ _ _ F).
+    apply IH. intros mn' I. apply H. right. exact I.
+  Qed.
+
+  Lemma run_expand_spec names : forall d d1,
+    run_modules (expand_module fuel) names d = Ok d1 ->
+    skel d1 = skel d /\
+    (forall mn m, In mn names -> find_module d1 mn = Some m -> module_nocompof m) /\
+    (forall mn, (forall m, find_module d mn = Some m -> module_nocompof m) ->
+                forall m, find_module d1 mn = Some m -> module_nocompof m).
+  Proof.
+    induction names as [|mn r IH]; intros d d1 E.
+    - simpl in E. inv_ok. repeat split; [intros ? ? []|auto].
+    - simpl in E. destruct (find_module d mn) as [m|] eqn:F; [|discriminate]. inv_ok.
+      destruct (expand_module_spec _ _ _ E0) as [MN SF].
+      pose proof (skel_replace _ _ _ _ F SF) as SK.
+      set (d' := replace_module d mn x) in *.
+      assert (Here : forall m0, find_module d' mn = Some m0 -> module_nocompof m0).
+      { intros m0 F0. unfold d' in F0. rewrite (find_replace_same _ _ _ _ F) in F0 by apply SF.
+        injection F0 as <-. exact MN. }
+      assert (Keep : forall mn', (forall m0, find_module d mn' = Some m0 -> module_nocompof m0) ->
+                                 forall m0, find_module d' mn' = Some m0 -> module_nocompof m0).
+      { intros mn' P m0 F0. destruct (String.eqb mn' mn) eqn:Q.
+        - apply String.eqb_eq in Q. subst mn'. apply Here. exact F0.
+        - apply String.eqb_neq in Q. unfold d' in F0.
+          rewrite (find_replace_other _ _ _ _ _ F) in F0; [auto|apply SF|exact Q]. }
+      destruct (IH _ _ E) as (S1 & In1 & Keep1).
+      split; [rewrite S1; exact SK|]. split.
+      + intros mn' m0 [<-|I] F0; [eapply Keep1; eauto | eapply In1; eauto].
+      + intros mn' P. apply Keep1. apply Keep. exact P.
+  Qed.
+
+  Lemma run_expand_fixed names d :
+    (forall mn, In mn names -> fixed_at d mn) ->
+    run_modules (expand_module fuel) names d = Ok d.
+  Proof.
+    induction names as [|mn r IH]; intros H; [reflexivity|]. simpl.
+    destruct (H mn (or_introl eq_refl)) as (m & F & MF). rewrite F.
+    rewrite (fixed_expand_module _ _ _ MF). simpl. rewrite (replace_self _ _ _ F).
+    apply IH. intros mn' I. apply H. right. exact I.
+  Qed.
+
+  (** A successful pre_process leaves every module (the first one of each
+      name) at a fixed point of the module step. *)
+  Lemma preprocess_fixed numeric d d1 :
+    preprocess fuel var numeric d = Ok d1 ->
+    skel d1 = skel d /\ forall mn, In mn (map m_name d) -> fixed_at d1 mn.
+  Proof.
+    unfold preprocess. intros H. inv_ok.
+    assert (P1 : skel x = skel d /\ (v_compof_first var = true -> all_nocompof x)).
+    { destruct (v_compof_first var); inv_ok; [|split; [reflexivity|discriminate]].
+      destruct (run_expand_spec _ _ _ E) as (S & I & _). split; [exact S|].
+      intros _ mn m F. eapply I; [|exact F].
+      rewrite names_of_skel, <- S, <- names_of_skel. eapply find_module_In; eauto. }
+    destruct P1 as [S1 Pre].
+    destruct (run_process_spec _ _ _ _ H Pre) as (S2 & I2 & _).
+    split; [rewrite S2; exact S1 | exact I2].
+  Qed.
+
+  Theorem preprocess_idempotent_ numeric numeric' d d1 :
+    preprocess fuel var numeric d = Ok d1 -> preprocess fuel var numeric' d1 = Ok d1.
+  Proof.
+    intros H. destruct (preprocess_fixed _ _ _ H) as [S Fx].
+    assert (N : map m_name d1 = map m_name d) by (rewrite !names_of_skel, S; reflexivity).
+    unfold preprocess. rewrite N.
+    assert (X : (if v_compof_first var then run_modules (expand_module fuel) (map m_name d) d1 else Ok d1) = Ok d1).
+    { destruct (v_compof_first var); [|reflexivity]. apply run_expand_fixed. exact Fx. }
+    rewrite X. simpl. apply run_process_fixed. exact Fx.
+  Qed.
+
+  (** The options of a run do not matter when numeric_enums does not touch the dictionary. *)
+  Lemma process_module_numeric n1 n2 d m :
+    process_module fuel var n1 d m = process_module fuel var n2 d m.
+  Proof.
+    unfold process_module.
+    destruct (if v_compof_first var then Ok m else expand_module fuel d m) as [m1|]; simpl; [|reflexivity].
+    destruct (if m_ext m1 then step_types (ext_node var) (m_types m1) else Ok (m_types m1)) as [ts2|];
+      simpl; [|reflexivity].
+    destruct (step_types (tag_node fuel (skel d) (m_name m) (module_tags m) None) ts2) as [ts3|];
+      simpl; [|reflexivity].
+    assert (E : step_types (def_node fuel var n1 (skel d) (m_name m) false) ts3 =
+                step_types (def_node fuel var n2 (skel d) (m_name m) false) ts3).
+    { unfold step_types. apply mapM_ext. apply Forall_forall. intros nt _.
+      rewrite (def_numeric fuel var (skel d) (m_name m) Hvar n1 n2). reflexivity. }
+    rewrite E. reflexivity.
+  Qed.
+
+  Lemma run_modules_ext f g names : (forall d m, f d m = g d m) ->
+    forall d, run_modules f names d = run_modules g names d.
+  Proof.
+    intros H. induction names as [|mn r IH]; intros d; [reflexivity|]. simpl.
+    destruct (find_module d mn); [|reflexivity]. rewrite H. destruct (g d m); simpl; auto.
+  Qed.
+
+  Lemma preprocess_numeric n1 n2 d : preprocess fuel var n1 d = preprocess fuel var n2 d.
+  Proof.
+    unfold preprocess.
+    destruct (if v_compof_first var then run_modules (expand_module fuel) (map m_name d) d else Ok d);
+      simpl; [|reflexivity].
+    apply run_modules_ext. intros. apply process_module_numeric.
+  Qed.
+End Dict.
+
+(** * The theorems *)
+Theorem preprocess_idempotent fuel var n1 n2 d d1 :
+  v_numeric_in_dict var = false ->
+  preprocess fuel var n1 d = Ok d1 -> preprocess fuel var n2 d1 = Ok d1.
+Proof. intros Hvar. apply preprocess_idempotent_. exact Hvar. Qed.
+
+Theorem preprocess_absorbs fuel var o1 o2 d :
+  v_numeric_in_dict var = false ->
+  (let* d1 := preprocess fuel var o1 d in preprocess fuel var o2 d1) = preprocess fuel var o2 d.
+Proof.
+  intros Hvar. rewrite (preprocess_numeric fuel var Hvar o2 o1 d).
+  destruct (preprocess fuel var o1 d) as [d1|] eqn:E; simpl; [|reflexivity].
+  eapply preprocess_idempotent; eauto.
+Qed.
+
+Section History.
+  Context {R : Type}.
+  Variable fuel : nat.
+  Variable var : variant.
+  Hypothesis Hvar : v_numeric_in_dict var = false.
+  Variable process : compiler_id -> bool -> dict -> R.
+
+  Lemma compile_dict_ok c n d d1 :
+    preprocess fuel var n d = Ok d1 ->
+    compile_dict fuel var process c n d =
+    Ok (d1, (process (CCodec c) n d1, process CTypeChecker n d1, process CConstraintsChecker n d1)).
+  Proof.
+    intros H. unfold compile_dict. rewrite H. simpl.
+    rewrite (preprocess_idempotent _ _ _ n _ _ Hvar H). simpl.
+    rewrite (preprocess_idempotent _ _ _ n _ _ Hvar H). reflexivity.
+  Qed.
+
+  Lemma compile_dict_err c n d e :
+    preprocess fuel var n d = Err e -> compile_dict fuel var process c n d = Err e.
+  Proof. intros H. unfold compile_dict. rewrite H. reflexivity. Qed.
+
+  Lemma run_state h : forall d d',
+    run fuel var process h d = Ok d' -> d' = d \/ preprocess fuel var false d = Ok d'.
+  Proof.
+    induction h as [|s r IH]; intros d d' E; simpl in E.
+    - inv_ok. left. reflexivity.
+    - destruct s as [c n| |]; try (apply IH; exact E).
+      inv_ok. destruct (preprocess fuel var n d) as [d1|] eqn:P.
+      + rewrite (compile_dict_ok _ _ _ _ P) in E0. inv_ok. simpl in E.
+        rewrite (preprocess_numeric fuel var Hvar n false) in P.
+        destruct (IH _ _ E) as [->|Q]; [right; exact P|].
+        right. rewrite (preprocess_idempotent _ _ _ false _ _ Hvar P) in Q. inv_ok. exact P.
+      + rewrite (compile_dict_err _ _ _ _ P) in E0. discriminate.
+  Qed.
+
+  (** Compiling with any codec and options after any history of successful
+      compilations (with pformat/eval and deep-copy steps in between) of the
+      same dictionary gives exactly the result of compiling the dictionary as
+      parsed: the same final dictionary and the same three compiler outputs,
+      or the same failure. *)
+  Theorem history_independent h c o d d' :
+    run fuel var process h d = Ok d' ->
+    compile_dict fuel var process c o d' = compile_dict fuel var process c o d.
+  Proof.
+    intros H. destruct (run_state _ _ _ H) as [->|P]; [reflexivity|].
+    rewrite (preprocess_numeric fuel var Hvar false o) in P.
+    rewrite (compile_dict_ok c o d d' P).
+    apply compile_dict_ok. eapply preprocess_idempotent; eauto.
+  Qed.
+End History.
+
+(** * The upstream numeric_enums rewrite refutes it *)
+Definition enum_e : node :=
+  NType (Attrs "ENUMERATED" (Some "e") None false (Some (DvStr "c"))
+               (Some [Some ("a", EvInt 0); Some ("b", EvInt 1); Some ("c", EvInt 2)]) None [])
+        None None.
+(** M DEFINITIONS AUTOMATIC TAGS ::= BEGIN
+      T ::= SEQUENCE { e ENUMERATED { a, b, c } DEFAULT c } END *)
+Definition witness_dict : dict :=
+  [Module "M" (Some "AUTOMATIC") false []
+          [("T", NType (Attrs "SEQUENCE" None None false None None None []) (Some [enum_e]) None)] []].
+
+Definition view (_ : compiler_id) (_ : bool) (d : dict) : list (string * dval) := default_view d.
+
+Theorem preprocess_absorbs_refuted :
+  exists d, (let* d1 := preprocess 8 upstream true d in preprocess 8 upstream false d1)
+            <> preprocess 8 upstream false d.
+Proof. exists witness_dict. vm_compute. intros H. discriminate H. Qed.
+
+(** compile_dict(d, 'der', numeric_enums=True) then compile_dict(d, 'der'):
+    the second codec's absent DEFAULT is the int 2 instead of 'c'. *)
+Theorem history_independent_refuted :
+  exists h c o d d',
+    run 8 upstream view h d = Ok d' /\
+    compile_dict 8 upstream view c o d' <> compile_dict 8 upstream view c o d /\
+    option_map (fun x => fst (fst (snd x)))
+               (match compile_dict 8 upstream view c o d' with Ok x => Some x | Err _ => None end)
+    = Some [("M.T.e", DvInt 2)].
+Proof.
+  exists [SCompile Der true], Der, false, witness_dict.
+  eexists. split; [vm_compute; reflexivity|]. split; [vm_compute; intros H; discriminate H|].
+  vm_compute. reflexivity.
+Qed.
+
+(** The same history with the repaired behaviour. *)
+Example history_witness_repaired :
+  match run 8 repaired view [SCompile Der true] witness_dict with
+  | Ok d' => compile_dict 8 repaired view Der false d' = compile_dict 8 repaired view Der false witness_dict
+  | Err _ => False
+  end.
+Proof. vm_compute. reflexivity. Qed.
